@@ -177,6 +177,9 @@ def run(ck):
         for fn in tu.some(qname=BASE):
             check_base(ck, tu, fn)
         check_fronts(ck, tu)
+        from rules import c09
+        nt = c09.check_trees_in(ck, tu)
+        ck.require(nt >= 4, "the per-thread merges use loser trees for k >= 5; expected 4 instantiated classes, found %d" % nt)
     m = len(types)
     ck.floor("SPLIT-DEFINITE-INIT", 2 * m)
     ck.floor("ZERO-LENGTH", 2 * m)
